@@ -101,6 +101,18 @@ func buildPTree(n *PNode, bt *builtTree) {
 		var err error
 		if n.Fanout > 0 {
 			lnk, sz, err = builder.BuildUnixFSShardedDirectory(n.Fanout, multihash.MURMUR3X64_64, links, bt.st.LinkSystem())
+		} else if n.Fanout < 0 {
+			// a plain directory block written by hand with its links in the order of the children (not sorted by name)
+			var rl []rawLink
+			sz = 0
+			for _, ch := range n.Children {
+				nm, ts := ch.Name, bt.sizes[ch.ID]
+				rl = append(rl, rawLink{Name: &nm, Tsize: &ts, Cid: bt.cids[ch.ID]})
+				sz += ts
+			}
+			blk := encodePBRaw(rl, []byte{8, 1}, true)
+			sz += uint64(len(blk))
+			lnk = cidlink.Link{Cid: bt.st.PutPBRaw(blk)}
 		} else {
 			lnk, sz, err = builder.BuildUnixFSDirectory(links, bt.st.LinkSystem())
 		}
@@ -148,7 +160,9 @@ func coqEnt(n *PNode) string {
 	}
 	// the directory lists its entries in name order
 	kids := append([]*PNode{}, n.Children...)
-	sort.Slice(kids, func(i, j int) bool { return kids[i].Name < kids[j].Name })
+	if n.Fanout >= 0 { // a hand-written block keeps the order it was written in
+		sort.Slice(kids, func(i, j int) bool { return kids[i].Name < kids[j].Name })
+	}
 	xs := make([]string, len(kids))
 	for i, k := range kids {
 		xs[i] = fmt.Sprintf("(%s, %s)", coqBytes([]byte(k.Name)), coqEnt(k))
@@ -577,7 +591,7 @@ func scnPathSel(rep *Report, rng *Rng, tier string, outdir string) {
 		if depth == 0 || rng.Intn(3) == 0 {
 			return &PNode{ID: id, Name: name, File: true, Size: []int{0, 2, 7, 20}[rng.Intn(4)]}
 		}
-		d := &PNode{ID: id, Name: name, Fanout: []int{0, 0, 8, 16, 256}[rng.Intn(5)]}
+		d := &PNode{ID: id, Name: name, Fanout: []int{0, 0, 8, 16, 256, -1}[rng.Intn(6)]}
 		n := 1 + rng.Intn(6)
 		perm := rng.Perm(len(names))
 		for i := 0; i < n; i++ {
@@ -609,6 +623,22 @@ func scnPathSel(rep *Report, rng *Rng, tier string, outdir string) {
 		}
 		collect(tree, "")
 		var all []string
+		// every proper suffix of the names in (a few) sharded directories: absent names that end like a member and
+		// now and then hash into the member's slot
+		var suffixes func(n *PNode, p string)
+		nsuf := 0
+		suffixes = func(n *PNode, p string) {
+			for _, c := range n.Children {
+				if n.Fanout > 0 && nsuf < 60 {
+					for i := 1; i < len(c.Name); i++ {
+						all = append(all, p+"/"+c.Name[i:])
+						nsuf++
+					}
+				}
+				suffixes(c, p+"/"+c.Name)
+			}
+		}
+		suffixes(tree, "")
 		for _, p := range paths {
 			all = append(all, p)
 			if p != "" && rng.Intn(2) == 0 {
